@@ -24,6 +24,10 @@ pub struct PredRow {
     /// that contradict or duplicate an ancestor (exactly empty / lower-dimensional regions)
     #[serde(default)]
     pub anc: Option<(u16, bool, f64)>,
+    /// the whole row (coefficients and bias) is multiplied by 2^scale: the predicate is the same
+    /// half-space, but absolute tolerances in the library see very different magnitudes
+    #[serde(default)]
+    pub scale: i8,
 }
 
 #[derive(Clone, Debug, Serialize, Deserialize)]
@@ -51,6 +55,9 @@ pub struct TreeSpec {
     pub order: Vec<u16>,
     /// junk nodes inserted and removed during construction (holes / reused indices)
     pub junk: Vec<u8>,
+    /// every terminal map is multiplied by 2^leaf_scale (exact in f64)
+    #[serde(default)]
+    pub leaf_scale: i8,
 }
 
 /// concrete (resolved) tree
@@ -76,6 +83,15 @@ impl TreeSpec {
     }
 
     fn leaf_aff(&self, l: &LeafSpec) -> Aff {
+        let a = self.leaf_aff_unscaled(l);
+        if self.leaf_scale == 0 {
+            return a;
+        }
+        let k = 2f64.powi(self.leaf_scale as i32);
+        Aff { mat: Mat { rows: a.mat.rows.iter().map(|r| r.iter().map(|x| x * k).collect()).collect(), cols: a.mat.cols }, bias: a.bias.iter().map(|x| x * k).collect() }
+    }
+
+    fn leaf_aff_unscaled(&self, l: &LeafSpec) -> Aff {
         match l {
             LeafSpec::Fresh(a) => a.clone(),
             LeafSpec::Pool(i) => self.pool[pick(*i, self.pool.len())].clone(),
@@ -103,14 +119,16 @@ impl TreeSpec {
         match n {
             TNode::Leaf(l) => RNode::Leaf(self.leaf_aff(l)),
             TNode::Dec { rows, kids } => {
-                let mut mat = Vec::new();
+                let mut mat: Vec<Vec<f64>> = Vec::new();
                 let mut bias = Vec::new();
                 for r in rows {
                     if let (Some((sel, neg, shift)), false) = (&r.anc, ancestors.is_empty()) {
                         let (aa, ab) = &ancestors[pick(*sel, ancestors.len())];
                         let s = if *neg { -1.0 } else { 1.0 };
-                        mat.push(aa.iter().map(|x| x * s).collect());
-                        bias.push(ab * s + shift);
+                        // ancestors are stored unscaled; the copy gets this row's own scale
+                        let k = 2f64.powi(r.scale as i32);
+                        mat.push(aa.iter().map(|x| x * s * k).collect());
+                        bias.push((ab * s + shift) * k);
                         continue;
                     }
                     let b = match &r.b {
@@ -124,12 +142,14 @@ impl TreeSpec {
                             }
                         }
                     };
-                    mat.push(r.a.clone());
-                    bias.push(b);
+                    let k = 2f64.powi(r.scale as i32);
+                    mat.push(r.a.iter().map(|x| x * k).collect());
+                    bias.push(b * k);
                 }
                 let depth_before = ancestors.len();
-                for (a, b) in mat.iter().zip(&bias) {
-                    ancestors.push((a.clone(), *b));
+                for ((a, b), r) in mat.iter().zip(&bias).zip(rows) {
+                    let k = 2f64.powi(-(r.scale as i32));
+                    ancestors.push((a.iter().map(|x| x * k).collect(), *b * k));
                 }
                 let kids = kids.iter().map(|k| k.as_ref().map(|k| self.resolve_node_anc(k, anchors, ancestors))).collect();
                 ancestors.truncate(depth_before);
@@ -299,8 +319,9 @@ fn pred_row(n: usize) -> impl Strategy<Value = PredRow> {
         a,
         prop_oneof![1 => nice_with(32, 2).prop_map(BiasSpec::Val), 1 => any::<u16>().prop_map(BiasSpec::Through)],
         prop::option::weighted(0.2, (any::<u16>(), any::<bool>(), prop_oneof![2 => Just(0.0), 1 => Just(1.0), 1 => Just(-1.0), 1 => nice_with(8, 1)])),
+        scale_exp(),
     )
-        .prop_map(|(a, b, anc)| PredRow { a, b, anc })
+        .prop_map(|(a, b, anc, scale)| PredRow { a, b, anc, scale })
 }
 
 fn leaf_spec(out: usize, inn: usize, pool_pct: u32) -> impl Strategy<Value = LeafSpec> {
@@ -341,6 +362,11 @@ pub fn tnode(p: TreeParams) -> BoxedStrategy<TNode> {
     level
 }
 
+/// exponent of a power-of-two scaling: 0 in 85 % of the cases, else uniform in [-36, 36]
+pub fn scale_exp() -> BoxedStrategy<i8> {
+    prop_oneof![17 => Just(0i8), 3 => -36i8..=36].boxed()
+}
+
 pub fn tree_spec(p: TreeParams) -> BoxedStrategy<TreeSpec> {
     (
         proptest::collection::vec(aff(p.out_dim, p.in_dim), 2..=3),
@@ -348,8 +374,9 @@ pub fn tree_spec(p: TreeParams) -> BoxedStrategy<TreeSpec> {
         tnode(p),
         proptest::collection::vec(any::<u16>(), 0..6),
         proptest::collection::vec(any::<u8>(), 0..6),
+        prop_oneof![9 => Just(0i8), 1 => -24i8..=24],
     )
-        .prop_map(move |(pool, anchors, root, order, junk)| TreeSpec { in_dim: p.in_dim, out_dim: p.out_dim, pool, anchors, root, order, junk })
+        .prop_map(move |(pool, anchors, root, order, junk, leaf_scale)| TreeSpec { in_dim: p.in_dim, out_dim: p.out_dim, pool, anchors, root, order, junk, leaf_scale })
         .boxed()
 }
 
